@@ -48,6 +48,14 @@ pub struct State {
 }
 
 static TRACK: AtomicBool = AtomicBool::new(false);
+/// Fill freed blocks with 0xDD? A per-run knob: poisoned memory exposes
+/// stale *borrows* (they read garbage), un-poisoned memory exposes stale
+/// *identity* (a freed zone that still compares equal is handed out again).
+static POISON: AtomicBool = AtomicBool::new(false);
+
+pub fn set_poison(on: bool) {
+    POISON.store(on, Ordering::Relaxed);
+}
 static LOCK: AtomicBool = AtomicBool::new(false);
 static mut STATE: Option<State> = None;
 
@@ -148,7 +156,7 @@ unsafe impl GlobalAlloc for Counting {
             // Poison freed memory (tracked processes only): a stale borrow
             // into a freed zone then reads 0xDD bytes instead of plausible
             // old data, and the answer oracles notice.
-            if TRACK.load(Ordering::Relaxed) && layout.size() <= (1 << 16) {
+            if POISON.load(Ordering::Relaxed) && layout.size() <= (1 << 16) {
                 std::ptr::write_bytes(p, 0xDD, layout.size());
             }
             System.dealloc(p, layout);
